@@ -53,25 +53,51 @@ def order_exprs(fn: ast.AST) -> set[str]:
     return out
 
 
+def _order_ops(region: ast.AST, tx: str | None, orders: set[str]):
+    ops = []
+    for n in ast.walk(region):
+        if isinstance(n, ast.Call) and isinstance(n.func, ast.Attribute) and n.func.attr in ("append", "remove", "insert", "pop") \
+                and (norm(n.func.value) == tx if tx else norm(n.func.value) in orders):
+            ops.append(n)
+        if isinstance(n, ast.Delete) and any(isinstance(x, ast.Subscript) and (norm(x.value) == tx if tx else norm(x.value) in orders) for x in n.targets):
+            ops.append(n)
+    return ops
+
+
 def mirror_tests(cfg: CFG, orders: set[str]):
-    """test nodes `if <order list>:` whose true arm performs a structural op on that same order list"""
+    """CFG nodes that stand for "the order list is brought in line": `if <order list>:` whose true arm performs a structural
+    op on that list; a loop over the order list whose body does (a loop over an empty list is the same no-op as the guard);
+    or the structural op itself when it is not under such a guard."""
     out = []
+    covered = set()
     for t in cfg.nodes:
-        if t.kind != "test" or not isinstance(getattr(t, "stmt", None), ast.If):
-            continue
-        tx = norm(t.ast)
-        if tx not in orders:
-            continue
-        body = ast.Module(body=t.stmt.body, type_ignores=[])
-        ops = []
-        for n in ast.walk(body):
-            if isinstance(n, ast.Call) and isinstance(n.func, ast.Attribute) and n.func.attr in ("append", "remove", "insert", "pop") \
-                    and norm(n.func.value) == tx:
-                ops.append(n)
-            if isinstance(n, ast.Delete) and any(isinstance(x, ast.Subscript) and norm(x.value) == tx for x in n.targets):
-                ops.append(n)
-        if ops:
-            out.append((t, ops))
+        if t.kind == "test" and isinstance(getattr(t, "stmt", None), ast.If):
+            tx = norm(t.ast)
+            if tx not in orders:
+                continue
+            body = ast.Module(body=t.stmt.body, type_ignores=[])
+            ops = _order_ops(body, tx, orders)
+            if ops:
+                out.append((t, ops))
+                covered |= {id(o) for o in ops}
+    for t in cfg.nodes:
+        if t.kind == "for" and isinstance(t.ast, ast.For):
+            it = t.ast.iter
+            if isinstance(it, ast.Call) and isinstance(it.func, ast.Name) and it.func.id in ("enumerate", "list", "reversed") and it.args:
+                it = it.args[0]
+            tx = norm(it)
+            if tx not in orders:
+                continue
+            ops = [o for o in _order_ops(ast.Module(body=t.ast.body, type_ignores=[]), tx, orders) if id(o) not in covered]
+            if ops:
+                out.append((t, ops))
+                covered |= {id(o) for o in ops}
+    for t in cfg.nodes:
+        if t.kind == "stmt" and t.ast is not None:
+            ops = [o for o in _order_ops(t.ast, None, orders) if id(o) not in covered]
+            if ops:
+                out.append((t, ops))
+                covered |= {id(o) for o in ops}
     return out
 
 
@@ -141,7 +167,8 @@ def run(prog: Program, roots=None, prop="C14", rid_prefix="R-C14") -> Results:
             pm = parent_map(f.node)
             guard = None
             cur = pm.get(dels[0])
-            while cur is not None and cur is not t.stmt:
+            region = getattr(t, "stmt", None) or t.ast
+            while cur is not None and cur is not region:
                 if isinstance(cur, ast.If):
                     guard = cur
                 cur = pm.get(cur)
